@@ -11,7 +11,19 @@ OK, REJ, FREE = "ok", "reject", "free"
 NAN, INF = float("nan"), float("inf")
 T32, T33 = "L" * 32, "M" * 33
 
-RACK = [("", OK), ("x", OK), ("Water µ", OK), (T32, OK), (T33, REJ), ("a;b", REJ), (";", REJ)]
+RACK = [("", OK), ("x", OK), ("Water µ", OK), (T32, OK), (T33, REJ), ("a;b", REJ), (";", REJ),
+        # str subclasses: robotools.Labwares.SystemLiquid (its value is "Systemliquid", as in the documentation's
+        # example) and numpy.str_
+        ({"$enum": "SystemLiquid"}, OK), ({"$npstr": "Plate 7"}, OK)]
+
+
+def plain_text(v):
+    """what a text argument says, whatever str subclass carries it"""
+    if isinstance(v, dict) and "$enum" in v:
+        return {"SystemLiquid": "Systemliquid"}[v["$enum"]]
+    if isinstance(v, dict) and "$npstr" in v:
+        return v["$npstr"]
+    return v
 TEXT = [("", OK), ("x", OK), ("Water µ", OK), (T32, OK), (T33, FREE), ("a;b", REJ), (";", REJ)]
 VOL50 = [(0, OK), (0.005, OK), (12.345, OK), (50, OK), (math.nextafter(50, INF), REJ), (-1, REJ), (NAN, REJ), (INF, REJ), ("12", FREE), (7158279, REJ), (2.675, OK)]
 POS = [(1, OK), (7, OK), (96, OK), (0, FREE), (-1, REJ), (1.5, REJ), ("3", REJ), ({"$none": 1}, REJ)]
@@ -176,6 +188,7 @@ class Harness(cm.BaseB):
         wl = rt.BaseWorklist(max_volume=50, diti_mode=case["diti"])
         wl.append("C;before")
         call = {k: val(v) for k, v in args.items()}
+        args = {k: plain_text(v) for k, v in args.items()}
         lab, pos, vol = call.pop("rack_label"), call.pop("position"), call.pop("volume")
         try:
             getattr(wl, case["em"])(lab, pos, vol, **call)
@@ -229,7 +242,7 @@ class Harness(cm.BaseB):
             args[f] = v
             status = REJ if REJ in (status, st) else FREE if FREE in (status, st) else OK
         raw = args
-        args = {k: (v["$npi"] if isinstance(v, dict) and "$npi" in v else v) for k, v in raw.items()}  # what the oracle reads
+        args = {k: plain_text(v["$npi"] if isinstance(v, dict) and "$npi" in v else v) for k, v in raw.items()}  # what the oracle reads
         for tag in ("$iter", "$tuple", "$set"):
             if isinstance(args["exclude_wells"], dict) and tag in args["exclude_wells"]:
                 args["exclude_wells"] = list(args["exclude_wells"][tag])
